@@ -252,6 +252,37 @@ Qed.
 Lemma expected_line_past_end : forall t k, (length (split_lines t) <= k)%nat -> expected_line t k = [].
 Proof. intros t k H. unfold expected_line. apply nth_overflow. exact H. Qed.
 
+(* the reference on a text written as complete lines followed by a remainder *)
+Lemma split_lines_no_nl : forall l, ~ In 10 l -> split_lines l = [l].
+Proof.
+  induction l as [|c l IH]; intros H; [reflexivity|].
+  cbn [split_lines]. destruct (c =? 10) eqn:E.
+  - apply Z.eqb_eq in E. exfalso. apply H. left. exact E.
+  - rewrite IH by (intros H'; apply H; right; exact H'). reflexivity.
+Qed.
+
+Lemma split_lines_line : forall l t, ~ In 10 l -> split_lines (l ++ 10 :: t) = l :: split_lines t.
+Proof.
+  induction l as [|c l IH]; intros t H; [reflexivity|].
+  cbn [app split_lines]. destruct (c =? 10) eqn:E.
+  - apply Z.eqb_eq in E. exfalso. apply H. left. exact E.
+  - rewrite IH by (intros H'; apply H; right; exact H'). reflexivity.
+Qed.
+
+Definition unlines_with (ls : list (list Z)) (last : list Z) : list Z :=
+  concat (map (fun l => l ++ [10]) ls) ++ last.
+
+Lemma split_lines_unlines : forall ls last,
+  Forall (fun l => ~ In 10 l) ls -> ~ In 10 last ->
+  split_lines (unlines_with ls last) = ls ++ [last].
+Proof.
+  unfold unlines_with. induction ls as [|l ls IH]; intros last Hls Hlast.
+  - cbn [map concat app]. apply split_lines_no_nl. exact Hlast.
+  - inversion Hls as [|? ? Hl Hrest]; subst. cbn [map concat].
+    rewrite <- !app_assoc. cbn [app]. rewrite split_lines_line by exact Hl.
+    rewrite IH by assumption. reflexivity.
+Qed.
+
 Lemma reference_is_the_split : forall t,
   join_nl (split_lines t) = t /\
   Forall (fun l => ~ In 10 l) (split_lines t) /\
@@ -481,6 +512,18 @@ Proof.
   - reflexivity.
   - rewrite zlen_nil. pose proof rl_read_max_pos. lia.
   - cbn [s_rem]. lia.
+Qed.
+
+(* Spelled out: a text made of complete lines [ls] (each followed by a newline) and a
+   remainder [last] without newline (possibly empty): the calls return the lines in order,
+   then the remainder, then "" for ever. *)
+Lemma read_line_lines_then_remainder : forall ls last sched k,
+  Forall (fun l => ~ In 10 l) ls -> ~ In 10 last ->
+  option_map (map fst) (run (unlines_with ls last) sched k) = Some (take_pad k (ls ++ [last])).
+Proof.
+  intros ls last sched k Hls Hlast. rewrite read_line_successive_lemma.
+  rewrite <- expected_fast_eq. unfold expected_fast.
+  rewrite split_lines_unlines by assumption. reflexivity.
 Qed.
 
 (* the same, with the input given as the list of pieces the operating system hands out *)
